@@ -22,7 +22,7 @@ MSimFail(kind) == SimFail(kind) /\ PrintT(ToJson([src |-> St, act |-> [n |-> "Si
 MInject == Inject /\ PrintT(ToJson([src |-> St, act |-> [n |-> "Inject", e |-> 901 + ninj], out |-> [k |-> "none"], dst |-> St']))
 MTeardown == Teardown /\ PrintT(ToJson([src |-> St, act |-> [n |-> "Teardown"], out |-> [k |-> "none"], dst |-> St']))
 MNext == \/ MPollFwd \/ \E lost \in BOOLEAN : MPollCached(lost)
-         \/ \E i \in 1..11 : \E sw \in SUBSET (1..2) : \E lost \in BOOLEAN : MSimRespond(i, sw, lost)
+         \/ \E i \in 1..12 : \E sw \in SUBSET (1..3) : \E lost \in BOOLEAN : MSimRespond(i, sw, lost)
          \/ (\E kind \in FailKinds : MSimFail(kind)) \/ MInject \/ MTeardown \/ MObs
 MSpec == MInit /\ [][MNext]_vars
 ====
